@@ -113,7 +113,7 @@ def rule_MP2(rep, prog, k):
 
 def rule_OD3(rep, prog, k):
     rid = rep.rule("C16-OD3", "unregistration order: the epoll registration is removed (epoll_ctl DEL/MOD) before the unote is marked unregistered; "
-                   "finalisation sets DELETED once (crash if already set), wakes cancel waiters and drops the registration reference", floor=2)
+                   "finalisation sets DELETED once (crash if already set), wakes cancel waiters and drops the registration reference", floor=18)
     fn = prog.fn("_dispatch_unote_unregister_muxed")
     rep.saw(fn)
     ep = calls_named(fn, ("epoll_ctl", "_dispatch_epoll_update", "_dispatch_unote_muxnote_disarm", "_dispatch_epoll_muxnote_update")) + \
@@ -124,6 +124,42 @@ def rule_OD3(rep, prog, k):
     rep.require(rid, ok, fn.file, fn.name, "state-unregistered-before-epoll",
                 "_dispatch_unote_unregister_muxed marks the unote unregistered before (or without) removing it from epoll: an event can still be delivered "
                 "after the cancel handler ran", sample={"epoll_calls": len(ep), "state_sets": len(ss)})
+    # the descriptor leaves the epoll set exactly when the last source on it goes away - whether or not that source's event was armed at the time:
+    # concrete evaluation over (readers left, writers left, disarmed mask)
+    ke = consts.get(["EPOLLIN", "EPOLLOUT", "EPOLL_CTL_DEL"], unit="event/event_epoll", includes=("sys/epoll.h",))
+    IN, OUT, DEL = ke["EPOLLIN"], ke["EPOLLOUT"], ke["EPOLL_CTL_DEL"]
+    def head_loads(field):
+        return [l for l in fn.all_insts() if l.op == "load" and field in prog.fields(l) and "lh_first" in prog.fields(l)]
+    rl_, wl_ = head_loads("dmn_readers_head"), head_loads("dmn_writers_head")
+    ev = [l for l in fn.all_insts() if l.op == "load" and "dmn_events" in prog.fields(l)]
+    dis = [l for l in fn.all_insts() if l.op == "load" and "dmn_disarmed_events" in prog.fields(l)]
+    dels = [c for c in fn.all_insts() if c.op == "call" and c.callee == "epoll_ctl"]
+    if not rl_ or not wl_ or not ev or not dis or not dels:
+        rep.unknown(rid, "anchor vanished in _dispatch_unote_unregister_muxed (reader/writer list heads %d/%d, dmn_events loads %d, disarmed loads %d, epoll_ctl %d)"
+                    % (len(rl_), len(wl_), len(ev), len(dis), len(dels)))
+    else:
+        E0 = IN | OUT | 0x40000018
+        for readers in (0, 1):
+            for writers in (0, 1):
+                for disarmed in (0, IN, OUT, IN | OUT):
+                    env = {l.id: readers * 0x1000 for l in rl_}
+                    env.update({l.id: writers * 0x2000 for l in wl_})
+                    env.update({l.id: E0 for l in ev})
+                    env.update({l.id: disarmed for l in dis})
+                    seen = []
+                    def rec(i, seen=seen):
+                        if i.op == "call" and i.callee in ("epoll_ctl", "_dispatch_epoll_update"):
+                            seen.append(i)
+                        return False
+                    concrete_walk_any(fn, env, rec)
+                    deleted = any(c.callee == "epoll_ctl" and arg_const(fn, c, 1) == DEL for c in seen)
+                    want = not readers and not writers
+                    rep.require(rid, deleted == want, dels[0].loc, fn.name, "epoll-del-iff-last-source:%d:%d:%d" % (readers, writers, disarmed),
+                                "_dispatch_unote_unregister_muxed with %s reader(s) and %s writer(s) left on the descriptor and disarmed mask %#x %s EPOLL_CTL_DEL: the fd "
+                                "must leave the epoll set exactly when the last source on it is unregistered - armed or not. Otherwise the cancel handler runs while "
+                                "the library still monitors the fd, the stale registration outlives close(), and a later source on the same fd number never fires"
+                                % ("some" if readers else "no", "some" if writers else "no", disarmed, "issues" if deleted else "does not issue"),
+                                sample={"readers": readers, "writers": writers, "disarmed": disarmed, "del": want})
     fn = prog.fn("_dispatch_source_refs_finalize_unregistration")
     rep.saw(fn)
     sc = calls_named(fn, "_dispatch_queue_atomic_flags_set_and_clear_orig")
@@ -169,6 +205,45 @@ def rule_MP4(rep, prog, k):
                     "dispatch_source_cancel_and_wait unregisters the source in place without re-checking DSF_DELETED after it took the drain lock: when the "
                     "already enqueued source was invoked and finished the deletion in that window the unregistration is finalised a second time (internal "
                     "crash 'Source finalized twice' / the cancel handler conditions are evaluated on a finalised source)", sample={"call": u.loc, "deleted_tests": len(dtests)})
+    # the value the kernel wait compares the flag word with has DELETED clear: it is the very value on which DELETED was just tested (plus the waiter bit
+    # installed by a compare-exchange FROM that value). A value obtained afterwards by an unconditional fetch-or may already contain DELETED - the finaliser
+    # ran in between, saw no waiter bit and woke nobody - and the wait then sleeps on a word that will never change again
+    allt = flag_tests(fn, [], k["DSF_DELETED"])
+    def strip(op, cx):
+        for _ in range(8):
+            op = cx.resolve(op)
+            i = fn.inst(op) if op[0] == "i" else None
+            if i is None:
+                return op
+            if i.op == "or" and i.ops[1][0] == "c":
+                op = i.ops[0]
+            elif i.op in ("zext", "trunc"):
+                op = i.ops[0]
+            elif i.op == "select":
+                c = cx.cond(i.ops[0])
+                if c is None:
+                    return op
+                op = i.ops[1] if c else i.ops[2]
+            else:
+                return op
+        return op
+    for w in wait:
+        free = [r for r in paths.walk(fn, entry_point(fn), lambda i: i is w, avoid=lambda i: any(i is t for t, s_, p_ in allt), bound=200000) if r[0] == "hit"]
+        rep.require(rid, not free and bool(allt), w.loc, fn.name, "wait-without-deleted-test",
+                    "dispatch_source_cancel_and_wait can reach the kernel wait without having tested DSF_DELETED", sample={"tests": len(allt)})
+        for t, src_, pol in allt:
+            a = fn.inst(t.ops[0])
+            for kind, inst, cx, path in paths.walk(fn, t, lambda i: i is w, avoid=lambda i: any(i is t2 for t2, s2, p2 in allt if t2 is not t)):
+                if kind != "hit":
+                    continue
+                tested = tuple(strip(a.ops[0], cx)[:2])
+                waited = tuple(strip(w.ops[1], cx)[:2])
+                clear = cx.truth.get(t.id) == (not pol)
+                rep.require(rid, clear and tested == waited, w.loc, fn.name, "wait-on-untested-flags",
+                            "dispatch_source_cancel_and_wait blocks comparing dq_atomic_flags with a value (%s) that is not the one on which DSF_DELETED was just found "
+                            "clear (%s) (path %s): e.g. the result of an unconditional fetch-or of the waiter bit - if the unregistration was finalised in between, the "
+                            "waiter bit arrives after the only wake-up was decided and the call sleeps for ever on a fully cancelled source"
+                            % (waited, tested, path), sample={"wait": w.loc})
     from .sync_common import rule_recheck_after_wait
     rule_recheck_after_wait(rep, rid, prog, "dispatch_source_cancel_and_wait", "dq_atomic_flags", ("_dispatch_wait_on_address",), need_acquire=False,
                             reload_ops=("load", "cmpxchg", "atomicrmw"), reload_calls=("_dispatch_queue_atomic_flags",))
@@ -294,6 +369,17 @@ def run(rep, tier="quick", srcdir=None, only=None):
         # the uninstall of a cancelled, still armed timer happens on the manager queue only (shared with C11)
         from . import C11
         C11.rule_MP8(rep, prog)
+    if want("C01-TR1"):
+        # dispatch_source_cancel on a source that is drain-locked at that moment (a handler setter, cancel_and_wait) only marks it DIRTY and relies on the
+        # lock holder's unlock to notice: no unlock may commit with DIRTY possibly set unless it re-enqueues (shared with C01)
+        from . import C01
+        from dqsa import trans
+        ex = trans.Extractor(prog, tier)
+        ex.compute_argbits()
+        ts = []
+        for f_ in sorted(prog.all_functions(), key=lambda f: f.name):
+            ts.extend(ex.transitions(f_, DQ_STATE, plain=True))
+        C01.rule_TR1(rep, prog, ex, Q(srcdir), ts)
 
 
 MANIFEST = {
